@@ -3,6 +3,9 @@
 package executor
 
 import (
+	"context"
+	"time"
+
 	"github.com/ChainSafe/sygma-relayer/relayer/transfer"
 	"github.com/binance-chain/tss-lib/common"
 )
@@ -11,4 +14,17 @@ import (
 func (e *Executor) VerifC02ExecuteBatch(ps []*transfer.TransferProposal, gas uint64, sig *common.SignatureData) error {
 	_, err := e.executeBatch(&Batch{proposals: ps, gasLimit: gas}, sig)
 	return err
+}
+
+// VerifC02WatchExecution runs the unexported watch loop on a batch made of the caller's slice (no copy).
+func (e *Executor) VerifC02WatchExecution(ctx context.Context, cancel context.CancelFunc, ps []*transfer.TransferProposal, gas uint64,
+	sigChn chan interface{}, sessionID, messageID string) error {
+	return e.watchExecution(ctx, cancel, &Batch{proposals: ps, gasLimit: gas}, sigChn, sessionID, messageID)
+}
+
+// VerifC02SetCheckPeriod replaces the period of the "already executed?" poll and returns the previous one.
+func VerifC02SetCheckPeriod(d time.Duration) time.Duration {
+	old := executionCheckPeriod
+	executionCheckPeriod = d
+	return old
 }
